@@ -219,16 +219,18 @@ class NoTermination(BaseException):      # not an Exception: the package swallow
 
 
 def quiet_pformat(value, **kw):
-    """pformat under a wall-clock alarm: a print that does not finish is a violation of C13 (termination), and it
-    must not hang the check"""
+    """pformat under a CPU-time alarm: a print that does not finish is a violation of C13 (termination), and it must not
+    hang the check.  The budget is CPU time of this process (ITIMER_VIRTUAL), never wall time: on a loaded machine a
+    print of a 4-node graph was once descheduled for longer than a 4 s wall-clock budget and reported as non-terminating
+    (false alarm of a thorough run, corrected)."""
     import signal
 
     def on_alarm(signum, frame):
         raise NoTermination()
-    old = signal.signal(signal.SIGALRM, on_alarm)
+    old = signal.signal(signal.SIGVTALRM, on_alarm)
     # repeating timer: at the recursion limit the Python-level handler itself fails with RecursionError (which the
     # package swallows around printers), so one shot is not enough
-    signal.setitimer(signal.ITIMER_REAL, PFORMAT_BUDGET_S, 0.05)
+    signal.setitimer(signal.ITIMER_VIRTUAL, PFORMAT_BUDGET_S, 0.05)
     old_limit = sys.getrecursionlimit()
     sys.setrecursionlimit(min(old_limit, 1500))      # graphs here have <= 10 nodes: a deep recursion is a failure, fail fast
     try:
@@ -236,8 +238,8 @@ def quiet_pformat(value, **kw):
             warnings.simplefilter('ignore')
             return pformat(value, **kw)
     finally:
-        signal.setitimer(signal.ITIMER_REAL, 0)
-        signal.signal(signal.SIGALRM, old)
+        signal.setitimer(signal.ITIMER_VIRTUAL, 0)
+        signal.signal(signal.SIGVTALRM, old)
         sys.setrecursionlimit(old_limit)
 
 
